@@ -201,3 +201,25 @@ def repeated_failure_family():
                         ops += [f'del A {other}']
                 ops += [f'up A {victim}', 'tick 6', 'pass A', f'del A {victim}', f'del A {victim}', 'heal']
                 yield {'names': names, 'phens': CONFLICT, 'cache': 1000, 'ops': ops}
+
+
+def double_outage_family():
+    """3 instances: BOTH outgoing links of one instance fail in the same pass (each peer gets its own backlog), both outages
+    shorter than the resync period; the links come back one after the other, in either order: the second peer's backlog
+    must still be there after the first one's was delivered (what is kept per peer must not be shared between peers)."""
+    warm = ['sync', 'in A 0', 'sync', 'in A 1', 'sync']
+    for work in (['in A 2'], ['in A 2', 'in A 3'], ['in A 9'], ['in A 1', 'in A 2'], ['in A 0']):
+        for first, second in (('B', 'C'), ('C', 'B')):
+            for between in ([], ['in A 0'], ['tick 6']):
+                ops = list(warm) + ['down A B', 'down A C']
+                for w in work:
+                    ops += [w, 'pass A']
+                ops += [f'up A {first}', 'pass A', f'del A {first}', f'del A {first}'] + between
+                if between and between[0].startswith('in'):
+                    ops += ['pass A', f'del A {first}']
+                ops += [f'up A {second}', 'pass A', f'del A {second}', f'del A {second}', 'pass A', f'del A {second}', 'heal']
+                for periods in (None, dict(SMALL_PERIODS)):
+                    sc = {'names': ['A', 'B', 'C'], 'phens': CONFLICT, 'cache': 1000, 'ops': ops}
+                    if periods:
+                        sc['periods'] = periods
+                    yield sc
